@@ -32,7 +32,7 @@ META = {
                   'int()/float()/uuid.UUID()/strptime() (the converter table CT is computed with them over every substring '
                   'of the path segments used), str() of converted values, a second real router as shadow.  Not covered: '
                   'path segments containing a newline, backslash or braces (regular-expression corner of multi-field '
-                  'segments), float converters with min/max, custom converters, responder-suffix/method-map handling of '
+                  'segments), float bounds that are not whole numbers, custom converters, responder-suffix/method-map handling of '
                   'add_route, concurrency of the lazy compile (C19).  The action-coverage guard runs on the same state '
                   'graph with one-segment paths because TLC -coverage cannot digest the recursive Lookup operator.',
 }
@@ -157,26 +157,32 @@ DT_FORMAT = '%Y-%m-%dT%H:%M:%S%z'
 def conv_rows_for(s):
     """TRUSTED BASE: what CPython's own parsers accept for the text s, and str() of the value."""
     rows = []
+    big = 2 ** 31 - 1
+    clip = lambda n: max(-big, min(big, n))  # noqa  TLC integers are 32-bit; bounds in templates are small
+
+    def row(k, n, n2, v, fin=True, nan=False):
+        rows.append({'k': k, 's': list(s), 'n': clip(n), 'n2': clip(n2), 'nan': nan, 'fin': fin, 'v': list(str(v))})
     try:
         n = int(s)
-        # TLC integers are 32-bit: n is only compared with the (small) min/max arguments, so it is clipped;
-        # the value itself travels as the characters of str(n)
-        rows.append({'k': 'int', 's': list(s), 'n': max(-2 ** 31 + 1, min(2 ** 31 - 1, n)), 'fin': True, 'v': list(str(n))})
+        row('int', n, n, n)      # n is only compared with the min/max arguments; the value travels as str(n)
     except ValueError:
         pass
     try:
         x = float(s)
-        rows.append({'k': 'float', 's': list(s), 'n': 0, 'fin': math.isfinite(x), 'v': list(str(x))})
+        if math.isnan(x):
+            row('float', 0, 0, x, fin=False, nan=True)
+        elif math.isinf(x):
+            row('float', big if x > 0 else -big, big if x > 0 else -big, x, fin=False)
+        else:
+            row('float', math.floor(x), math.ceil(x), x)
     except ValueError:
         pass
     try:
-        u = uuid.UUID(s)
-        rows.append({'k': 'uuid', 's': list(s), 'n': 0, 'fin': True, 'v': list(str(u))})
+        row('uuid', 0, 0, uuid.UUID(s))
     except ValueError:
         pass
     try:
-        d = datetime.datetime.strptime(s, DT_FORMAT)
-        rows.append({'k': 'dt', 's': list(s), 'n': 0, 'fin': True, 'v': list(str(d))})
+        row('dt', 0, 0, datetime.datetime.strptime(s, DT_FORMAT))
     except ValueError:
         pass
     return rows
@@ -455,6 +461,23 @@ def overlap_universe():
     return Universe(segs), ['7.q', '7-q', 'q-q', '7.q-q']
 
 
+def bounds_universe():
+    """Third exhaustive universe: int and float converters with inclusive bounds at 0, at negative and positive
+    values, path segments on both sides of every bound and on it; a vetoing converter under the literal 'a' makes
+    the walk backtrack to the single-field sibling of 'a' (paths of <= 2 segments)."""
+    segs = [seg('a'), seg(fld('n', conv('int', lo=0))), seg(fld('t', conv('float', hi=0))),
+            seg(fld('i', conv('int', lo=-2, hi=3))), seg(fld('f', conv('float', lo=-1, hi=2))), seg(fld('y'))]
+    return Universe(segs), ['a', '-1', '0', '-0', '0.0', '-0.5', '0.5', '2', '2.5', '3', '4', '-2', '-3']
+
+
+def levels_universe():
+    """Fourth exhaustive universe, templates of <= 3 segments: a literal, a converted single field and a
+    multi-field segment with a converter, in every order -- each converted field has its own value on the path
+    ('7' vs '3.q'), so a value that ends up under the wrong name shows as P:params."""
+    segs = [seg('a'), seg(fld('u', INT)), seg(fld('n', INT), '.', fld('e'))]
+    return Universe(segs), ['a', '7', '3.q']
+
+
 def sim_universe():
     """the larger universe of the simulated histories (leg A): converters with arguments, float, a converter
     inside a multi-field segment, three multi-field shapes that can match the same representative"""
@@ -464,9 +487,10 @@ def sim_universe():
             seg(fld('p', path)), seg(fld('m'), '.', fld('n')), seg(fld('k'), '-', fld('n')),
             seg(fld('m', INT), '.', fld('x')), seg('v', fld('q')), seg(fld('m'), '.', fld('p', path)),
             seg(fld('g', conv('nope'))), seg(fld('9x')), seg('a b'),
-            seg('7.q'), seg(fld('j', INT), '-', fld('h'))]
+            seg('7.q'), seg(fld('j', INT), '-', fld('h')),
+            seg(fld('n0', conv('int', lo=0))), seg(fld('t0', conv('float', hi=0))), seg(fld('i', INT), ',', fld('j', INT))]
     ps = ['a', 'b', '', 'a.b', '7', '42', '007', ' 7', 'q', 'u.v', '1-2.3', '7.q', '1.5', 'va', 'inf',
-          '7-q', 'q-q', '7.q-q']
+          '7-q', 'q-q', '7.q-q', '-1', '0', '-0.5', '0.5', '10,20']
     return Universe(segs), ps
 
 
@@ -477,11 +501,13 @@ LITS = ['a', 'b', 'ab', 'items', 'v1', 'x.y', 'a-b', '7', 'a+b', '(z)', 'u.v', '
 UUID1 = '12345678-1234-5678-1234-567812345678'
 DT1 = '2020-01-02T03:04:05Z'
 CONVS = [(conv('int'), 6), (conv('int', nd=2), 2), (conv('int', lo=3, hi=50), 2), (conv('float'), 3),
-         (conv('float', fin=False), 1), (conv('uuid'), 2), (conv('dt'), 1)]
+         (conv('float', fin=False), 1), (conv('uuid'), 2), (conv('dt'), 1),
+         (conv('int', lo=0), 2), (conv('int', hi=0), 1), (conv('int', lo=-2, hi=3), 1), (conv('float', lo=0), 1),
+         (conv('float', hi=0), 2), (conv('float', lo=-1, hi=2), 1), (conv('float', lo=0, fin=False), 1)]
 REPS_BY_CONV = {
     '': ['q', 'u', ''],
-    'int': ['7', '42', '007', '+5', ' 7', '5_0', 'x7', '2', '51', '٥'],
-    'float': ['1.5', '1e3', 'inf', 'nan', '-0', 'x'],
+    'int': ['7', '42', '007', '+5', ' 7', '5_0', 'x7', '2', '51', '٥', '-1', '0', '-0', '3', '4', '-2', '-3'],
+    'float': ['1.5', '1e3', 'inf', 'nan', '-0', 'x', '-1', '0', '0.0', '-0.5', '0.5', '2', '2.5', '-inf'],
     'uuid': [UUID1, UUID1.replace('-', ''), 'not-a-uuid'],
     'dt': [DT1, '2020-01-02'],
     'path': ['q', ''],
@@ -565,7 +591,10 @@ def seg_reps(s, rng):
 
 
 GOOD_BAD = [(conv('int'), '7', 'x7'), (conv('int', nd=2), '42', '7'), (conv('int', lo=3, hi=50), '17', '51'),
-            (conv('float'), '1.5', 'latest')]
+            (conv('float'), '1.5', 'latest'), (conv('int', lo=0), '0', '-1'), (conv('float', hi=0), '-0.5', '0.5'),
+            (conv('int', lo=-2, hi=3), '-2', '-3'), (conv('float', lo=-1, hi=2), '2', '2.5'),
+            (conv('int', hi=0), '-0', '1'), (conv('float', lo=0), '0.0', '-0.5')]
+DISTINCT = ['7', '3', '10', '20', '5', '11']
 
 
 def scenario(rng, names):
@@ -576,7 +605,42 @@ def scenario(rng, names):
     pre = [seg(rng.choice(['pkg', 'cmp', 'v1', 'a']))] if rng.random() < 0.7 else []
     ptx = [render_seg(x) for x in pre]
     a, b, c, d, e = rng.sample(names, 5)
-    kind = rng.randrange(3)
+    kind = rng.randrange(5)
+    if kind == 3:
+        # literals, a converted single field and multi-field segments with converters at depth 3..4, in any
+        # order; every converted field gets its own value
+        f_ = rng.sample(names, 6)
+        vals = rng.sample(DISTINCT, 5)
+        cnum = lambda: rng.choice([INT, INT, conv('float'), conv('int', lo=0)])  # noqa
+        parts = [(seg(fld(f_[0], cnum())), vals[0])]
+        sp = rng.choice(['.', ',', '-'])
+        if rng.random() < 0.5:
+            parts.append((seg(fld(f_[1], cnum()), sp, fld(f_[2], cnum())), vals[1] + sp + vals[2]))
+        else:
+            first = rng.random() < 0.6
+            parts.append((seg(fld(f_[1], cnum()), sp, fld(f_[2])), vals[1] + sp + 'txt') if first
+                         else (seg(fld(f_[2]), sp, fld(f_[1], cnum())), 'txt' + sp + vals[1]))
+        if rng.random() < 0.4:
+            parts.append((seg(fld(f_[3], cnum())), vals[3]))
+        for word in rng.sample(['users', 'files', 'v'], rng.randint(1, 2)):
+            parts.append((seg(word), word))
+        parts = parts[:4]
+        rng.shuffle(parts)
+        tps = [[x for x, _ in parts]]
+        path = [v for _, v in parts]
+        probes = [path, path[:-1] + ['zz'], path, path + ['zz']]
+        return tps, probes
+    if kind == 4:
+        # a bounded converter below a literal vetoes; the walk must go back to the literal's single-field sibling
+        cb, good, bad = rng.choice(GOOD_BAD[2:])
+        tail = seg(rng.choice(['x', 'tail']))
+        tps = [[seg('a'), seg(fld(a, cb)), tail], [seg(fld(b)), seg(fld(c)), tail]]
+        if rng.random() < 0.5:
+            tps.append([seg('pages'), seg(fld(d, cb))])
+        rng.shuffle(tps)
+        tl = render_seg(tail)
+        probes = [['a', good, tl], ['a', bad, tl], ['pages', bad], ['pages', good], ['a', bad, tl]]
+        return tps, probes
     if kind == 0:
         (c1, g1, b1), (c2, g2, b2) = rng.choice(GOOD_BAD), rng.choice(GOOD_BAD)
         s1, s2 = rng.choice(['.', '-', ':']), rng.choice(['.', '-', ':'])
@@ -775,6 +839,14 @@ def run(ctx):
     ro = ctx.tlc('MC_Router', 'MC_Router.cfg', env={'ROUTER_UNIVERSE': uopath}, workers=W, timeout=1500)
     otables = load_tables(ro.json)
     ctx.progress('leg M (nesting/overlap universe): %d states, %d table states' % (ro.distinct, len(otables)))
+    small = [(uo, pso, otables)]
+    for mk, cfg, what in ((bounds_universe, 'MC_RouterP2.cfg', 'converter bounds'),
+                          (levels_universe, 'MC_RouterD3.cfg', 'depth 3')):
+        ux, psx = mk()
+        uxpath = ux.write(os.path.join(ctx.scratch, 'mc_universe_%s.json' % cfg[9:11]), psx)
+        rx = ctx.tlc('MC_Router', cfg, env={'ROUTER_UNIVERSE': uxpath}, workers=W, timeout=1500)
+        small.append((ux, psx, load_tables(rx.json)))
+        ctx.progress('leg M (%s universe): %d states, %d table states' % (what, rx.distinct, len(small[-1][2])))
     big = None
     if not ctx.quick:
         r3 = ctx.tlc('MC_Router', 'MC_RouterT.cfg', env=env, workers=W, timeout=3000)
@@ -797,24 +869,31 @@ def run(ctx):
     # ---- leg A1: the decision table replayed: every history of <= 2 adds, complete lookup tables ----
     rng = ctx.rng
     n = lookups = 0
-    for uu, pp, tabs in [(u, ps, tables), (uo, pso, otables)] + ([big] if big else []):
+    for uu, pp, tabs in [(u, ps, tables)] + small + ([big] if big else []):
         rp = Replayer(ctx, uu)
-        tps = all_templates(uu, 2)
-        moves = [(tp, c) for tp in tps for c in (False, True)]
-        P2, P3 = all_paths(pp, 2), all_paths(pp, 3)
+        is_small = any(uu is x[0] for x in small)
+        depth3, short = uu is small[2][0], uu is small[1][0]
+        tps = all_templates(uu, 3 if depth3 else 2)
+        # compile flags: thorough replays all four combinations per template pair of the two larger universes;
+        # quick (and the two smallest universes) draw the flags per history
+        allflags = not ctx.quick and not (depth3 or short)
+        moves = [(tp, c) for tp in tps for c in ((False, True) if allflags else (None,))]
+        P2, P3 = all_paths(pp, 2), all_paths(pp, 2 if short else 3)
         P3only = P3[len(P2):]
-        nsample = len(P3only) if uu is uo else ctx.pick(15, 40)      # the small universe: complete tables
+        nsample = len(P3only) if is_small else ctx.pick(12, 40)      # the small universes: complete tables
         for m1 in moves:
             for m2 in moves:
                 n += 1
                 final = P2 + rng.sample(P3only, nsample)
                 mid = rng.sample(P2, 5) if n % 2 else []
-                replay_history(rp, uu, tabs, [m1, m2], final, mid, 'decision-table')
+                hist = [(tp, rng.random() < 0.5 if c is None else c) for tp, c in (m1, m2)]
+                replay_history(rp, uu, tabs, hist, final, mid, 'decision-table')
         if not ctx.quick:     # longer histories: the table covers the states with <= 2 accepted adds
             for _ in range(15000):
                 n += 1
-                hist = [rng.choice(moves) for _ in range(rng.randint(3, 5))]
-                replay_history(rp, uu, tabs, hist, rng.sample(P3, 40), rng.sample(P2, 4), 'decision-table-long')
+                hist = [(tp, rng.random() < 0.5 if c is None else c)
+                        for tp, c in (rng.choice(moves) for _ in range(rng.randint(3, 5)))]
+                replay_history(rp, uu, tabs, hist, rng.sample(P3, min(40, len(P3))), rng.sample(P2, 4), 'decision-table-long')
         lookups += rp.lookups
         ctx.progress('leg A1: %d histories, %d lookups so far' % (n, lookups))
     ctx.traces_validated += n
